@@ -51,8 +51,8 @@ class answer_when_given_up:
 
     def is_alive(task):
       alive = orig.fget(task)
-      if not alive:
-        courier.release_address(task.worker.address)
+      if not alive and courier.release_address(task.worker.address):
+        time.sleep(0.01)      # ... and the client's event loop gets to process the answer before the caller acts
       return alive
     self.cls.is_alive = property(is_alive)
     return self
@@ -184,7 +184,8 @@ def run_sharded(case):
   poison = bool(shape.get('poison')) and any(x in shape['poison'] for b in data for x in b['a'])
   want_out, want_agg = ([], None) if poison else dist.in_process(data, shape)
   cl = dist.Cluster(case['workers'], prefetch_size=case['prefetch_size'], iterate_batch_size=case['iterate_batch_size'], tag='s')
-  install_plan(cl, case['plan'], case.get('answer_after', 0.05))
+  at_give_up = case.get('answer_at') == 'give_up'
+  install_plan(cl, case['plan'], 1000.0 if at_give_up else case.get('answer_after', 0.05))
   rq = queue.SimpleQueue()
   out = []
   kw = {}
@@ -195,8 +196,10 @@ def run_sharded(case):
     for x in orchestrate.sharded_pipelines_as_iterator(cl.pool, dist.define_pipeline, data, shape, result_queue=rq,
                                                        num_shards=case['shards'], **kw):
       out.append(x)
+  import contextlib  # pylint: disable=g-import-not-at-top
   try:
-    status, res = dist.run_with_watchdog(body, 120)
+    with (answer_when_given_up() if at_give_up else contextlib.nullcontext()):
+      status, res = dist.run_with_watchdog(body, 120)
     results = dist.drain_queue(rq, wait_first=5.0 if status == 'ok' else 0.5)
     acquired = [w.address for w in cl.pool.acquired_workers]
     hit = courier.STATS['faults_hit']
@@ -252,6 +255,7 @@ def strat_sharded(tier):
     else:
       case['plan'] = _plan(draw, workers, ['init_generator', 'next_batch_from_generator'], 6)
       case['answer_after'] = draw(st.sampled_from([0.005, 0.02, 0.05]))
+      case['answer_at'] = draw(st.sampled_from(['later', 'later', 'give_up']))
     return case
   return s()
 
